@@ -454,6 +454,10 @@ class DAGRunConcurrentManager(DAGRunManagerLike):
         for idx, node_id in enumerate(predecessors):
 
             if self._is_switch(node_id):
+                if self._node_storage.exists_node_result(node_id):
+                    # The switch has failed inside a OneOf subgraph. There is no case to wait for
+                    continue
+
                 with suppress(KeyError, AttributeError):
                     predecessors[idx] = self._node_storage.get_switch_result(node_id).node_id
 
@@ -508,7 +512,10 @@ class DAGRunConcurrentManager(DAGRunManagerLike):
                 functools.partial(self._is_ready_to_execute, dag, node_id),
             )
 
-            if dag.is_oneof and self.__has_subgraph_error(dag):
+            # The selected case of a switch is not a node of the subgraph, but its failure is the subgraph's failure
+            subgraph_error = self.__get_subgraph_error(dag, self._get_predecessors(dag, node_id)) if dag.is_oneof else None
+
+            if subgraph_error is not None:
                 logger.debug('An error has been found in the %s', dag)
 
                 # The nodes that have already been started must not be cancelled here: they may be needed by
@@ -522,7 +529,7 @@ class DAGRunConcurrentManager(DAGRunManagerLike):
                 # The error may be several steps away from the end of the subgraph. Hence, the waiter of
                 # the subgraph's result must be notified explicitly.
                 await self.__unlock_itself(dag.dest)
-                return None
+                return subgraph_error
 
             if not dag.is_oneof and not self._is_head_of_oneof(node_id):
                 # A failure that has been stored as a result for a OneOf subgraph is still a failure for
@@ -553,6 +560,16 @@ class DAGRunConcurrentManager(DAGRunManagerLike):
         )
 
         return self._node_storage.get_node_result(dag.dest, with_hidden=True)
+
+    def __get_subgraph_error(self, dag: DiGraph, extra_node_ids: t.Iterable[NodeId] = ()) -> t.Optional[BaseException]:
+        """
+        Get the first error of the subgraph's nodes or the additional nodes
+        """
+        for node_id in (*dag.nodes, *extra_node_ids):
+            if self._node_storage.exists_node_error(node_id):
+                return self._node_storage.get_node_result(node_id)
+
+        return None
 
     def __has_subgraph_error(self, dag: DiGraph) -> bool:
         """
@@ -640,13 +657,20 @@ class DAGRunConcurrentManager(DAGRunManagerLike):
 
             await self.__raise_exc(ex)
 
-        result = await self._run_dag(
-            dag=self._get_reduced_dag(
-                self.dag.input_node,
-                (self._node_storage.get_switch_result(node_id)).node_id,
-                is_oneof=dag.is_oneof,
-            ),
+        case_dag = self._get_reduced_dag(
+            self.dag.input_node,
+            (self._node_storage.get_switch_result(node_id)).node_id,
+            is_oneof=dag.is_oneof,
         )
+
+        result = await self._run_dag(dag=case_dag)
+
+        if dag.is_oneof and isinstance(result, BaseException):
+            # The nodes of the selected case are not a part of the OneOf subgraph (the case edges are filtered out).
+            # A failure among them is the failure of the switch: keep it as the result of the switch so that
+            # the OneOf subgraph is marked as failed instead of passing the failure on as a value.
+            self._node_storage.set_node_result(node_id, result)
+            await self.__unlock_itself(dag.dest)
 
         # The selected case may have been computed (and its notifications sent) before the switch was resolved.
         # Hence, the consumers of the switch have to re-check their dependencies now.
